@@ -75,5 +75,8 @@ manifest = {
     'notes': 'All checks are exhaustive enumerations within stated bounds, executed on the implementation; see DESIGN.md. known_findings.json lists repaired (fixed:) and recorded (known) defects.',
     'not_applicable': na,
 }
+if '--write' not in sys.argv:
+    print('dry run (pass --write to rewrite MANIFEST.json): checks=%d not_applicable=%d' % (len(checks), len(na)))
+    sys.exit(0)
 json.dump(manifest, open('MANIFEST.json', 'w'), indent=1)
 print('checks=%d not_applicable=%d' % (len(checks), len(na)))
